@@ -50,9 +50,16 @@ pub fn fmt_table(fams: &[MetricFamily]) -> String {
     t.iter().map(|(b, s)| format!("{:016x}:{}", b, hex_list(&[s]))).collect::<Vec<_>>().join(",")
 }
 
-enum Coll { C(Counter), IC(IntCounter), G(Gauge), IG(IntGauge), H(Histogram), P(PullingGauge), CV(CounterVec), GV(GaugeVec), HV(HistogramVec) }
+/// a user-written collector: fixed descriptors and hand-adjusted families (here: timestamps set on collected counter samples)
+#[derive(Clone)]
+struct Custom { descs: Vec<core::Desc>, fams: Vec<MetricFamily> }
+impl Collector for Custom {
+    fn desc(&self) -> Vec<&core::Desc> { self.descs.iter().collect() }
+    fn collect(&self) -> Vec<MetricFamily> { self.fams.clone() }
+}
+enum Coll { C(Counter), IC(IntCounter), G(Gauge), IG(IntGauge), H(Histogram), P(PullingGauge), CV(CounterVec), GV(GaugeVec), HV(HistogramVec), X(Custom) }
 impl Coll {
-    fn boxed(&self) -> Box<dyn Collector> { match self { Coll::C(x) => Box::new(x.clone()), Coll::IC(x) => Box::new(x.clone()), Coll::G(x) => Box::new(x.clone()), Coll::IG(x) => Box::new(x.clone()), Coll::H(x) => Box::new(x.clone()), Coll::P(x) => Box::new(x.clone()), Coll::CV(x) => Box::new(x.clone()), Coll::GV(x) => Box::new(x.clone()), Coll::HV(x) => Box::new(x.clone()) } }
+    fn boxed(&self) -> Box<dyn Collector> { match self { Coll::C(x) => Box::new(x.clone()), Coll::IC(x) => Box::new(x.clone()), Coll::G(x) => Box::new(x.clone()), Coll::IG(x) => Box::new(x.clone()), Coll::H(x) => Box::new(x.clone()), Coll::P(x) => Box::new(x.clone()), Coll::CV(x) => Box::new(x.clone()), Coll::GV(x) => Box::new(x.clone()), Coll::HV(x) => Box::new(x.clone()), Coll::X(x) => Box::new(x.clone()) } }
 }
 fn opts_of(name: &str, help: &str, consts: &[(String, String)]) -> Opts { let mut o = Opts::new(name, help); for (k, v) in consts { o = o.const_label(k.clone(), v.clone()); } o }
 
@@ -74,6 +81,21 @@ fn build(parts: &[&str]) -> Option<Coll> {
         "countervec" => { let v = CounterVec::new(opts_of(&name, &help, &consts), &vnames).ok()?; for (i, t) in tuples().iter().enumerate() { let tv: Vec<&str> = t.iter().map(|s| s.as_str()).collect(); v.get_metric_with_label_values(&tv).ok()?.inc_by((i + 1) as f64); } Coll::CV(v) }
         "gaugevec" => { let v = GaugeVec::new(opts_of(&name, &help, &consts), &vnames).ok()?; for (i, t) in tuples().iter().enumerate() { let tv: Vec<&str> = t.iter().map(|s| s.as_str()).collect(); v.get_metric_with_label_values(&tv).ok()?.set((i + 1) as f64); } Coll::GV(v) }
         "histogramvec" => { let v = HistogramVec::new(HistogramOpts::from(opts_of(&name, &help, &consts)).buckets(vec![0.5, 2.0]), &vnames).ok()?; for (i, t) in tuples().iter().enumerate() { let tv: Vec<&str> = t.iter().map(|s| s.as_str()).collect(); let h = v.get_metric_with_label_values(&tv).ok()?; for _ in 0..=i { h.observe(1.0); } } Coll::HV(v) }
+        // sub=<name>/<help>/<pairs>/<val>/<ts|none> repeated: one counter sample per sub-metric, its timestamp set when given (also to 0)
+        "custom" => {
+            let mut descs = vec![]; let mut fams = vec![];
+            for p in parts { if let Some(s) = p.strip_prefix("sub=") {
+                let f: Vec<&str> = s.split('/').collect();
+                let (n, h, ps, v) = (unhex_list(f[0])[0].clone(), unhex_list(f[1])[0].clone(), parse_pairs(f[2]), f64_parse(f[3]));
+                let c = Counter::with_opts(opts_of(&n, &h, &ps)).ok()?; c.inc_by(v);
+                descs.push(c.desc()[0].clone());
+                let mut fam = c.collect().remove(0);
+                if let Some(ts) = f.get(4).and_then(|t| t.parse::<i64>().ok()) { let mut ms: Vec<proto::Metric> = fam.get_metric().to_vec(); ms[0].set_timestamp_ms(ts); fam.set_metric(ms.into()); }
+                fams.push(fam);
+            } }
+            if parts.contains(&"nodesc=1") { descs.clear(); }
+            Coll::X(Custom { descs, fams })
+        }
         _ => return None,
     })
 }
